@@ -58,6 +58,17 @@ type jseries struct {
 	TE   uint64 `json:"te"`
 	AL   uint64 `json:"al"`
 	Data string `json:"data"`
+	// SP: when the frame is laid out in one shared block, keep the spare capacity of the
+	// sub-slice (block[a:b]) instead of clipping it (block[a:b:b])
+	SP int `json:"sp,omitempty"`
+}
+
+// shared describes how the series of an encode op are carved out of ONE backing block, the
+// way a reader slices a buffer it filled in one go: Order lists the series indices in the
+// order their bytes sit in the block, Pad bytes of 0xA5 follow.
+type shared struct {
+	Order []int `json:"order"`
+	Pad   int   `json:"pad"`
 }
 
 type mutation struct {
@@ -81,6 +92,7 @@ type op struct {
 	Src      string     `json:"src"`
 	Bytes    string     `json:"bytes"`
 	Mut      []mutation `json:"mut"`
+	Shared   *shared    `json:"shared"`
 }
 
 type tcase struct {
@@ -95,6 +107,9 @@ type out struct {
 	Frame []jseries `json:"frame,omitempty"`
 	Alloc uint64    `json:"alloc"`
 	Msg   string    `json:"msg,omitempty"`
+	// Mutated: after Encode, 0 = the caller's sample memory is untouched, 1 = bytes of the
+	// shared block outside every series changed, 2 = the data of a series of the frame changed
+	Mutated int `json:"mutated"`
 }
 
 type result struct {
@@ -252,9 +267,41 @@ func runCase(c tcase) (res result) {
 				}
 				keys := make([]channel.Key, len(o.Frame))
 				series := make([]telem.Series, len(o.Frame))
+				datas := make([][]byte, len(o.Frame))
+				for i, js := range o.Frame {
+					datas[i], _ = hex.DecodeString(js.Data)
+				}
+				var block, blockBefore []byte
+				offs := make([][2]int, len(o.Frame))
+				if o.Shared != nil {
+					order := o.Shared.Order
+					if len(order) != len(o.Frame) {
+						order = order[:0]
+						for i := range o.Frame {
+							order = append(order, i)
+						}
+					}
+					for _, i := range order {
+						offs[i] = [2]int{len(block), len(block) + len(datas[i])}
+						block = append(block, datas[i]...)
+					}
+					for i := 0; i < o.Shared.Pad; i++ {
+						block = append(block, 0xA5)
+					}
+					block = block[:len(block):len(block)]
+					blockBefore = append([]byte(nil), block...)
+				}
 				for i, js := range o.Frame {
 					keys[i] = channel.Key(js.K)
-					d, _ := hex.DecodeString(js.Data)
+					d := append([]byte(nil), datas[i]...)
+					if o.Shared != nil {
+						a, b := offs[i][0], offs[i][1]
+						if js.SP != 0 {
+							d = block[a:b]
+						} else {
+							d = block[a:b:b]
+						}
+					}
 					series[i] = telem.Series{
 						DataType:  dtOf(js.DT),
 						TimeRange: telem.TimeRange{Start: telem.TimeStamp(js.TS), End: telem.TimeStamp(js.TE)},
@@ -270,6 +317,22 @@ func runCase(c tcase) (res result) {
 				} else {
 					r.Hex = hex.EncodeToString(b)
 					last = b
+				}
+				// the frame the caller still holds must be the frame it handed in
+				for i := range series {
+					if !bytes.Equal(series[i].Data, datas[i]) || len(series[i].Data) != len(datas[i]) {
+						r.Mutated = 2
+					}
+				}
+				if o.Shared != nil {
+					for i := range series {
+						if !bytes.Equal(block[offs[i][0]:offs[i][1]], datas[i]) {
+							r.Mutated = 2
+						}
+					}
+					if r.Mutated == 0 && !bytes.Equal(block, blockBefore) {
+						r.Mutated = 1
+					}
 				}
 			case "decode":
 				s, ok := slots[o.Who]
